@@ -63,6 +63,10 @@ pub enum FTy {
     NilU8FnsD,
     /// same type via `with = "module"` + `has_nil`
     NilU8With,
+    /// derive_rt::Flex with `encode_with` + `cbor_len` only (array form on the wire; the type's own Decode reads it)
+    FlexEncOnly,
+    /// derive_rt::Flex with `decode_with` only (the type's own Encode writes the integer form)
+    FlexDecOnly,
     /// harness type that encodes as an indefinite-length array of u8
     IndefArr,
     /// `Option<IndefArr>`
@@ -231,7 +235,7 @@ fn is_nil(v: &GenVal) -> bool {
 pub fn field_values(ty: &FTy, all: &[Schema], salt: u8) -> Vec<GenVal> {
     let d = 1 + (salt % 20);
     match ty {
-        FTy::U8 | FTy::GenericU8 => vec![GenVal::U8(d), GenVal::U8(0), GenVal::U8(23), GenVal::U8(24), GenVal::U8(255)],
+        FTy::U8 | FTy::GenericU8 | FTy::FlexEncOnly | FTy::FlexDecOnly => vec![GenVal::U8(d), GenVal::U8(0), GenVal::U8(23), GenVal::U8(24), GenVal::U8(255)],
         FTy::OptU8 | FTy::GenericOptU8 | FTy::NilU8Fns | FTy::NilU8FnsB | FTy::NilU8FnsC | FTy::NilU8FnsD | FTy::NilU8With => vec![GenVal::some(GenVal::U8(d)), GenVal::none(), GenVal::some(GenVal::U8(24)), GenVal::some(GenVal::U8(255))],
         FTy::Str | FTy::StrRef | FTy::CowStr => vec![GenVal::Str(format!("s{}", d)), GenVal::Str(String::new()), GenVal::Str("x".repeat(24))],
         FTy::OptStr => vec![GenVal::some(GenVal::Str(format!("s{}", d))), GenVal::none(), GenVal::some(GenVal::Str(String::new()))],
@@ -355,7 +359,8 @@ fn tagged(tag: Option<u64>, i: Item) -> Item {
 fn encode_field_value(ty: &FTy, all: &[Schema], v: &GenVal) -> Item {
     match (ty, v) {
         (_, GenVal::Opt(None)) => NULL,
-        (FTy::U8 | FTy::GenericU8, GenVal::U8(x)) => Item::uint(*x as u64),
+        (FTy::U8 | FTy::GenericU8 | FTy::FlexDecOnly, GenVal::U8(x)) => Item::uint(*x as u64),
+        (FTy::FlexEncOnly, GenVal::U8(x)) => Item::array(vec![Item::uint(*x as u64)]),
         (FTy::OptU8 | FTy::GenericOptU8 | FTy::NilU8Fns | FTy::NilU8FnsB | FTy::NilU8FnsC | FTy::NilU8FnsD | FTy::NilU8With, GenVal::Opt(Some(x))) => Item::uint(x.u8() as u64),
         (FTy::Str | FTy::StrRef | FTy::CowStr, GenVal::Str(s)) => Item::text(s),
         (FTy::OptStr, GenVal::Opt(Some(x))) => Item::text(x.str()),
@@ -502,6 +507,11 @@ fn decode_field_value(ty: &FTy, all: &[Schema], i: &Item) -> R {
     let opt = |r: Result<GenVal, Stop>| r.map(GenVal::some);
     match ty {
         FTy::U8 | FTy::GenericU8 => u8_of(i).map(GenVal::U8),
+        FTy::FlexEncOnly | FTy::FlexDecOnly => match i {
+            Item::Array(v, _) if v.len() == 1 => u8_of(&v[0]).map(GenVal::U8),
+            Item::Array(..) => Err(Stop::Err(ErrKind::Other)),
+            _ => u8_of(i).map(GenVal::U8),
+        },
         FTy::Str | FTy::StrRef | FTy::CowStr => text_of(i).map(GenVal::Str),
         FTy::BytesVec | FTy::CowBytes | FTy::ByteSliceRef => bytes_of(i).map(GenVal::Bytes),
         FTy::ByteArr4 | FTy::ByteArrayT => match bytes_of(i) {
@@ -941,7 +951,7 @@ fn enumerate_schemas_base(thorough: bool) -> Vec<Schema> {
 
     // ---- G-type: every field type in every container position
     let tys: Vec<FTy> = vec![
-        FTy::U8, FTy::OptU8, FTy::Str, FTy::OptStr, FTy::StrRef, FTy::CowStr, FTy::BytesVec, FTy::OptBytesRef, FTy::ByteArr4, FTy::CowBytes, FTy::OptByteVec, FTy::ByteSliceRef, FTy::ByteArrayT, FTy::GenericU8, FTy::GenericOptU8, FTy::NilU8Fns, FTy::NilU8FnsB, FTy::NilU8FnsC, FTy::NilU8FnsD, FTy::NilU8With, FTy::IndefArr, FTy::OptIndefArr,
+        FTy::U8, FTy::OptU8, FTy::Str, FTy::OptStr, FTy::StrRef, FTy::CowStr, FTy::BytesVec, FTy::OptBytesRef, FTy::ByteArr4, FTy::CowBytes, FTy::OptByteVec, FTy::ByteSliceRef, FTy::ByteArrayT, FTy::GenericU8, FTy::GenericOptU8, FTy::NilU8Fns, FTy::NilU8FnsB, FTy::NilU8FnsC, FTy::NilU8FnsD, FTy::NilU8With, FTy::IndefArr, FTy::OptIndefArr, FTy::FlexEncOnly, FTy::FlexDecOnly,
         FTy::Nested(h_arr), FTy::OptNested(h_arr), FTy::Nested(h_map), FTy::OptNested(h_map), FTy::Nested(h_enum), FTy::OptNested(h_enum), FTy::Nested(h_ionly), FTy::OptNested(h_ionly), FTy::Nested(h_life), FTy::OptNested(h_tagged),
         FTy::OptNested(h_allopt_map),
     ];
@@ -1044,6 +1054,7 @@ fn ty_src(ty: &FTy, all: &[Schema]) -> String {
         FTy::OptNested(j) => format!("Option<{}>", type_use(&all[*j], all, "'a")),
         FTy::GenericU8 | FTy::GenericOptU8 | FTy::GenericOptNested(_) => "G".into(),
         FTy::NilU8Fns | FTy::NilU8FnsB | FTy::NilU8FnsC | FTy::NilU8FnsD | FTy::NilU8With => "derive_rt::NilU8".into(),
+        FTy::FlexEncOnly | FTy::FlexDecOnly => "derive_rt::Flex".into(),
         FTy::IndefArr => "derive_rt::IndefArr".into(),
         FTy::OptIndefArr => "Option<derive_rt::IndefArr>".into(),
     }
@@ -1114,6 +1125,8 @@ fn field_attrs(f: &FieldS, style: usize) -> String {
         FTy::NilU8Fns => "#[cbor(encode_with = \"derive_rt::nilu8::encode\", decode_with = \"derive_rt::nilu8::decode\", is_nil = \"derive_rt::nilu8::is_nil\", nil = \"derive_rt::nilu8::nil\", cbor_len = \"derive_rt::nilu8::cbor_len\")] ",
         FTy::NilU8FnsB => "#[cbor(encode_with = \"derive_rt::nilu8::encode\", is_nil = \"derive_rt::nilu8::is_nil\", cbor_len = \"derive_rt::nilu8::cbor_len\", decode_with = \"derive_rt::nilu8::decode\", nil = \"derive_rt::nilu8::nil\")] ",
         FTy::NilU8FnsC => "#[cbor(decode_with = \"derive_rt::nilu8::decode\", nil = \"derive_rt::nilu8::nil\")] #[cbor(encode_with = \"derive_rt::nilu8::encode\", is_nil = \"derive_rt::nilu8::is_nil\")] #[cbor(cbor_len = \"derive_rt::nilu8::cbor_len\")] ",
+        FTy::FlexEncOnly => "#[cbor(encode_with = \"derive_rt::flex::encode_arr\", cbor_len = \"derive_rt::flex::cbor_len_arr\")] ",
+        FTy::FlexDecOnly => "#[cbor(decode_with = \"derive_rt::flex::decode_any\")] ",
         FTy::NilU8FnsD => "#[cbor(is_nil = \"derive_rt::nilu8::is_nil\")] #[cbor(encode_with = \"derive_rt::nilu8::encode\")] #[cbor(decode_with = \"derive_rt::nilu8::decode\", nil = \"derive_rt::nilu8::nil\", cbor_len = \"derive_rt::nilu8::cbor_len\")] ",
         _ => "",
     };
@@ -1152,6 +1165,7 @@ fn make_expr(f: &FieldS, x: &str) -> String {
     }
     match &f.ty {
         FTy::U8 | FTy::GenericU8 => format!("{}.u8()", x),
+        FTy::FlexEncOnly | FTy::FlexDecOnly => format!("derive_rt::Flex({}.u8())", x),
         FTy::OptU8 | FTy::GenericOptU8 => format!("{}.opt().map(|y| y.u8())", x),
         FTy::Str => format!("{}.str().to_string()", x),
         FTy::OptStr => format!("{}.opt().map(|y| y.str().to_string())", x),
@@ -1179,6 +1193,7 @@ fn view_expr(f: &FieldS, t: &str) -> String {
     }
     match &f.ty {
         FTy::U8 | FTy::GenericU8 => format!("GenVal::U8(*{})", t),
+        FTy::FlexEncOnly | FTy::FlexDecOnly => format!("GenVal::U8({}.0)", t),
         FTy::OptU8 | FTy::GenericOptU8 => format!("GenVal::Opt({}.map(|y| Box::new(GenVal::U8(y))))", t),
         FTy::Str | FTy::StrRef | FTy::CowStr => format!("GenVal::Str({}.to_string())", t),
         FTy::OptStr => format!("GenVal::Opt({}.as_ref().map(|y| Box::new(GenVal::Str(y.to_string()))))", t),
